@@ -338,6 +338,25 @@ func c06Run(x *runCtx, ctx context.Context, w *lab.World, st *lab.MemState, k la
 		fails := res == "ok" && c06MustReject(s.what)
 		x.r.Violate(rep.Violation{Kind: "correspondence", Check: "C06.accept-owner", Signature: "C06.accept-owner:model-impl-disagree:" + s.what,
 			Input: input, Impl: impl, Model: model, PropertyFails: fails})
+		// registered although the entry chain of the voucher as presented does not verify (verified afresh here, outside the
+		// server that accepted it): a failing input whatever the scenario class
+		if res == "ok" && !fails {
+			var os fdo.VerifOwnerSign
+			if err := cbor.Unmarshal(sent, &os); err == nil {
+				chainErr := func() (err error) {
+					defer func() {
+						if p := recover(); p != nil {
+							err = fmt.Errorf("panic: %v", p)
+						}
+					}()
+					return os.To0d.Val.Voucher.VerifyEntries()
+				}()
+				if chainErr != nil {
+					x.r.Violate(rep.Violation{Kind: "oracle", Check: "C06.only-current-owner", Signature: "C06.registered-although-entry-chain-does-not-verify:" + s.what,
+						Input: input, Impl: impl, Detail: "Voucher.VerifyEntries on the voucher sent: " + chainErr.Error(), PropertyFails: true})
+				}
+			}
+		}
 	}
 	if res == "ok" && c06MustReject(s.what) {
 		x.r.Violate(rep.Violation{Kind: "oracle", Check: "C06.only-current-owner", Signature: "C06.registered-although:" + s.what, Input: input, Impl: impl, PropertyFails: true})
